@@ -1056,6 +1056,93 @@ fn run_history(out: &mut Out, rng: &mut Rng, work: &str, hist: usize, big: bool)
 		drop(subj);
 		drop(twin);
 	}
+	// C02 / C06: Chain::reset_chain_head (owner API reset; Model/ChainReset.lean) and the header
+	// denylist (Chain::invalidate_header): a node that has the whole trunk is reset to a block k
+	// blocks below its head, with and without its header chain; it must then report exactly what a
+	// node reports that only ever saw the trunk up to there; never-seen fork blocks follow; at the
+	// end the head is put on the denylist, the node reset to its parent, and the denied block offered
+	// again (refused, nothing changes)
+	{
+		let sr = new_rec_subject(&format!("{}/sr_{}", work, hist), &kit.genesis);
+		let tr = new_rec_subject(&format!("{}/tr_{}", work, hist), &kit.genesis);
+		out.raw("chain new sr");
+		let mut rrng = Rng::new(seed_from_env() ^ 0x5e5e7 ^ ((hist as u64) << 8));
+		for i in &trunk[1..] {
+			let r = sr.deliver_block(&kit.blks[*i].block);
+			out.line(&format!("chain deliver sr b{}", i), &r);
+		}
+		out.line("chain obs sr", &sr.obs(kit));
+		if trunk.len() > 4 {
+			let k = 1 + rrng.below((trunk.len() - 3) as u64) as usize;
+			let target = trunk[k];
+			let rewind_headers = rrng.chance(1, 2);
+			let hdr = kit.blks[target].block.header.clone();
+			let r = match sr.c().reset_chain_head(grin_chain::Tip::from_header(&hdr), rewind_headers) {
+				Ok(_) => "ok".to_string(),
+				Err(e) => format!("err:{}", error_class(&e)),
+			};
+			out.line(&format!("chain resethead sr b{} hdrs={}", target, if rewind_headers { 1 } else { 0 }), &r);
+			let obs = sr.obs(kit);
+			out.line("chain obs sr", &obs);
+			report_lines(out, &mut rrng, kit, &sr, "sr", &mut g_stats);
+			bitmap_oracle(out, kit, &sr, "sr", "after-reset_chain_head", &mut g_stats);
+			for i in &trunk[1..=k] {
+				let _ = tr.deliver_block(&kit.blks[*i].block);
+			}
+			let strip = |s: &str| -> String { s.split(' ').filter(|t| !t.starts_with("hhead=")).collect::<Vec<_>>().join(" ") };
+			if r != "ok" || strip(&obs) != strip(&tr.obs(kit)) || sr.roots() != tr.roots() {
+				out.raw(&format!(
+					"#ORACLE-FAIL C02 after reset_chain_head(b{}, rewind_headers={}) = {} the node reports [{} {}] but a node that only saw the chain up to b{} reports [{} {}]",
+					target, rewind_headers, r, obs, sr.roots(), target, tr.obs(kit), tr.roots()
+				));
+			}
+			if let Err(e) = sr.c().validate(true) {
+				out.raw(&format!("#ORACLE-FAIL C01 validate(fast) fails after reset_chain_head(b{}): {}", target, error_class(&e)));
+			}
+			if let Err(e) = sr.sums_check() {
+				out.raw(&format!("#ORACLE-FAIL C01 after reset_chain_head(b{}): {}", target, e));
+			}
+			*g_stats.entry(format!("reset:depth={}:rewind_headers={}", trunk.len() - 1 - k, rewind_headers)).or_insert(0) += 1;
+			// never-seen blocks follow: the fork branches, in creation order
+			for i in &valid {
+				if !trunk.contains(i) {
+					discard_status();
+					let r = sr.deliver_block(&kit.blks[*i].block);
+					out.line(&format!("chain deliver sr b{}", i), &r);
+					let (sl, _) = drain_status(kit);
+					out.line("chain status sr", &sl);
+					out.line("chain obs sr", &sr.obs(kit));
+					bitmap_oracle(out, kit, &sr, "sr", "fork-block-after-reset", &mut g_stats);
+				}
+			}
+			// the denylist: the head is denied, the node reset to its parent, the denied block offered again
+			let head_h = sr.c().head().unwrap().last_block_h;
+			if let Some(hd) = kit.by_hash.get(&head_h).cloned() {
+				if let Some(par) = kit.blks[hd].parent {
+					let _ = sr.c().invalidate_header(head_h);
+					let ph = kit.blks[par].block.header.clone();
+					let r = match sr.c().reset_chain_head(grin_chain::Tip::from_header(&ph), true) {
+						Ok(_) => "ok".to_string(),
+						Err(e) => format!("err:{}", error_class(&e)),
+					};
+					out.line(&format!("chain resethead sr b{} hdrs=1", par), &r);
+					let before = (sr.obs(kit), sr.roots());
+					out.line("chain obs sr", &before.0);
+					let r2 = sr.deliver_block(&kit.blks[hd].block);
+					let r3 = sr.deliver_header(&kit.blks[hd].block.header);
+					let after = (sr.obs(kit), sr.roots());
+					*g_stats.entry(format!("denylist:denied-block-offered-again:{}:{}", r2, r3)).or_insert(0) += 1;
+					if r2.starts_with("ok") || r3.starts_with("ok") || before != after {
+						out.raw(&format!(
+							"#ORACLE-FAIL C06 a block whose header is on the denylist (b{}) offered after reset_chain_head(b{}): block={} header={}; before=[{} {}] after=[{} {}]",
+							hd, par, r2, r3, before.0, before.1, after.0, after.1
+						));
+					}
+				}
+			}
+		}
+		discard_status();
+	}
 	// C03: every subject received every valid block: same head, utxo and roots when the max is unique
 	if unique_max {
 		let strip = |s: &str| -> String {
@@ -4024,7 +4111,8 @@ fn main() {
 	if args.get(1).map(|s| s == "c13").unwrap_or(false) {
 		// `c13 noprobe` (quick tier of C03): the same tree and deliveries without the pool-facing probe
 		// transactions and kernel look-ups after every head change (they belong to C06 / C13)
-		let noprobe = args.get(2).map(|s| s == "noprobe").unwrap_or(false);
+		// (ignored in the thorough tier, which always runs the full c13)
+		let noprobe = args.get(2).map(|s| s == "noprobe").unwrap_or(false) && !thorough;
 		let st = run_c13(&mut out, &mut rng, &work, noprobe);
 		for (k, v) in st {
 			out.raw(&format!("#STAT {}={}", k, v));
